@@ -53,7 +53,7 @@ def parsePeer (op : List String) (obs : String) : Option PeerX :=
   match op with
   | "peer" :: i :: kind :: args =>
     let tx := (args.find? (·.startsWith "tx=")).map (fun (s : String) => (s.drop 3).toString) |>.getD ""
-    let args := args.filter (fun a => !a.startsWith "tx=")
+    let args := args.filter (fun a => !a.startsWith "tx=" && !a.startsWith "gd=")
     let k := Kind.ofString kind
     let sp : PeerSpec :=
       match k, args with
